@@ -2,7 +2,7 @@
     it renders, the wash command, the worklist wrappers, and the agreement of the decoded command
     (Spec/CmdDecode.v) with the (well, volume) pairing of the labware tracking. *)
 From Robo Require Import Prelude Str Wells Utils Labware Tips Records Partition Params Worklist EvoCmd
-  SelDecode CmdDecode WellsProofs PartitionProofs TipsProofs SelProofs.
+  SelDecode CmdDecode WellsProofs PartitionProofs TipsProofs SelProofs RecordsProofs.
 #[local] Open Scope string_scope.
 
 (* ------------------------------------------------------------------ small helpers *)
@@ -59,12 +59,37 @@ Definition cmd_vols (v : cmdvol) (m : Q) (n : nat) : res (list Q) :=
                 | Err e => Err e
                 | Ok qs => if (length qs =? n)%nat then Ok qs else Err EReject
                 end
+  | CVIntList l => match check_volumes (int_pvols l) m with
+                   | Err e => Err e
+                   | Ok qs => if (length qs =? n)%nat then Ok qs else Err EReject
+                   end
   | CVScalar x => match check_volume x (Some m) with
                   | Err e => Err e
                   | Ok q => Ok (repeat q n)
                   end
   | CVOther => Err EReject
   end.
+
+(** an all-int list is validated like the float list of the same numbers *)
+Lemma cmd_vols_int l m n : cmd_vols (CVIntList l) m n = cmd_vols (CVList (int_pvols l)) m n.
+Proof. reflexivity. Qed.
+
+Lemma evo_vols_int l : evo_vols (CVIntList l) = evo_vols (CVList (int_pvols l)).
+Proof. reflexivity. Qed.
+
+Lemma int_pvols_In z l : In z l -> In (PV (XQ (inject_Z z))) (int_pvols l).
+Proof. intro H. unfold int_pvols. apply in_map_iff. exists z. split; [reflexivity|exact H]. Qed.
+
+Lemma int_pvols_In_inv x l : In x (int_pvols l) -> exists z, In z l /\ x = PV (XQ (inject_Z z)).
+Proof.
+  unfold int_pvols. intro H. apply in_map_iff in H. destruct H as [z [<- Hz]]. exists z. split; [exact Hz|reflexivity].
+Qed.
+
+Lemma int_pvols_eq l : forall qs, int_pvols l = map (fun q => PV (XQ q)) qs -> qs = map inject_Z l.
+Proof.
+  induction l as [|z r IH]; intros [|q qs] H; cbn [int_pvols map] in H; try discriminate; [reflexivity|].
+  injection H as Hq Hr. subst q. cbn [map]. f_equal. apply IH. exact Hr.
+Qed.
 
 Lemma check_volume_ok v m q : check_volume v (Some m) = Ok q ->
   v = PV (XQ q) /\ (0 <= q)%Q /\ (q <= max_tecan_volume)%Q /\ (q <= m)%Q.
@@ -316,6 +341,43 @@ Proof.
       cbn [render_slots]. rewrite (IH vols sl' E). reflexivity.
 Qed.
 
+(** whole numbers of microlitres: the slots hold multiples of 100 and the all-int text is their
+    integer spelling *)
+Lemma round2c_inject_Z z : round2c (inject_Z z) = (100 * z)%Z.
+Proof.
+  apply rc_round2c_exact. unfold Qeq, inject_Z, Qmult. cbn [Qnum Qden]. lia.
+Qed.
+
+Lemma slots_struct_render_int tipvs given : forall l sl,
+  slots_struct tipvs given (map inject_Z l) = Some sl -> tip_slots_int tipvs given l = render_slots_int sl.
+Proof.
+  induction tipvs as [|t rest IH]; intros l sl H; cbn [slots_struct tip_slots_int] in *.
+  - injection H as <-. reflexivity.
+  - destruct (existsb (Z.eqb t) given).
+    + destruct l as [|v vr]; cbn [map] in H; [discriminate|].
+      destruct (slots_struct rest given (map inject_Z vr)) as [sl'|] eqn:E; [|discriminate]. injection H as <-.
+      cbn [render_slots_int]. rewrite (IH vr sl' E). rewrite round2c_inject_Z.
+      replace (100 * v / 100)%Z with v by (rewrite Z.mul_comm, Z.div_mul; [reflexivity|discriminate]).
+      reflexivity.
+    + destruct (slots_struct rest given (map inject_Z l)) as [sl'|] eqn:E; [|discriminate]. injection H as <-.
+      cbn [render_slots_int]. rewrite (IH l sl' E). reflexivity.
+Qed.
+
+Definition slot_whole (o : option Z) : Prop := match o with Some h => exists z, h = (100 * z)%Z | None => True end.
+
+Lemma slots_struct_whole tipvs given : forall l sl,
+  slots_struct tipvs given (map inject_Z l) = Some sl -> Forall slot_whole sl.
+Proof.
+  induction tipvs as [|t rest IH]; intros l sl H; cbn [slots_struct] in H.
+  - injection H as <-. constructor.
+  - destruct (existsb (Z.eqb t) given).
+    + destruct l as [|v vr]; cbn [map] in H; [discriminate|].
+      destruct (slots_struct rest given (map inject_Z vr)) as [sl'|] eqn:E; [|discriminate]. injection H as <-.
+      constructor; [exists v; apply round2c_inject_Z|exact (IH vr sl' E)].
+    + destruct (slots_struct rest given (map inject_Z l)) as [sl'|] eqn:E; [|discriminate]. injection H as <-.
+      constructor; [exact I|exact (IH l sl' E)].
+Qed.
+
 Lemma slots_struct_ok tipvs given : forall vols,
   slots_ok tipvs given (length vols) = match slots_struct tipvs given vols with Some _ => true | None => false end.
 Proof.
@@ -359,10 +421,23 @@ Definition evo_command_struct (kind : string) (n_rows n_cols : nat) (a : cmdargs
   | _, _ => Err EReject
   end.
 
+(** the text of a structured command for the volume argument [v]: the usual rendering ([render_cmd]:
+    volumes with at least one fractional digit), except for an all-int volume list, whose whole numbers are
+    written as plain integers ([render_cmd_int]) *)
+Definition cmd_text (v : cmdvol) (c : cmd) : string :=
+  match v with CVIntList _ => render_cmd_int c | _ => render_cmd c end.
+
+Lemma cmd_vols_intlist_ok l m n qs : cmd_vols (CVIntList l) m n = Ok qs -> qs = map inject_Z l.
+Proof.
+  unfold cmd_vols. destruct (check_volumes (int_pvols l) m) as [qs'|e] eqn:E; [|discriminate].
+  destruct (length qs' =? n)%nat; [|discriminate]. intro H. injection H as <-.
+  destruct (check_volumes_ok _ _ _ E) as [Hq _]. exact (int_pvols_eq _ _ Hq).
+Qed.
+
 (** the emitted text is the rendering of the structured command; same errors *)
 Lemma evo_command_render kind n_rows n_cols a m :
   evo_command kind n_rows n_cols a m =
-  match evo_command_struct kind n_rows n_cols a m with Ok c => Ok (render_cmd c) | Err e => Err e end.
+  match evo_command_struct kind n_rows n_cols a m with Ok c => Ok (cmd_text (c_volume a) c) | Err e => Err e end.
 Proof.
   unfold evo_command, evo_command_struct. cbv zeta.
   destruct (negb (length (flattenF (c_wells a)) =? length (c_tips a))%nat); [reflexivity|].
@@ -370,7 +445,7 @@ Proof.
   destruct (check_range (c_grid a) 1 67) as [grid|]; [|reflexivity].
   destruct (check_range (c_site a) 1 128) as [site|]; [|reflexivity].
   fold (cmd_vols (c_volume a) m (length (flattenF (c_wells a)))).
-  destruct (cmd_vols (c_volume a) m (length (flattenF (c_wells a)))) as [qs|e]; [|reflexivity].
+  destruct (cmd_vols (c_volume a) m (length (flattenF (c_wells a)))) as [qs|e] eqn:Ev; [|reflexivity].
   destruct (text_ok false (c_liquid_class a)) as [lc|]; [|reflexivity].
   destruct (cmd_tip_values (c_tips a)) as [tvs|]; [|reflexivity].
   destruct (negb (strictly_ascending_Z tvs)); [reflexivity|].
@@ -379,13 +454,16 @@ Proof.
   destruct (slots_struct eight tvs qs) as [sl|] eqn:Es; cbn [negb]; [|reflexivity].
   destruct (selection_array n_rows n_cols (flattenF (c_wells a))) as [sel|]; [|reflexivity].
   destruct (2 <=? selected_columns n_rows n_cols (flattenF (c_wells a)))%nat; [reflexivity|].
-  unfold render_cmd. cbn [cm_kind cm_mask cm_lc cm_slots cm_grid cm_site cm_sel cm_arm].
-  rewrite (slots_struct_render _ _ _ _ Es). reflexivity.
+  destruct (c_volume a) as [x|l|l|] eqn:Ecv; unfold cmd_text, render_cmd, render_cmd_int;
+    cbn [cm_kind cm_mask cm_lc cm_slots cm_grid cm_site cm_sel cm_arm];
+    try (rewrite (slots_struct_render _ _ _ _ Es); reflexivity).
+  apply cmd_vols_intlist_ok in Ev. subst qs.
+  rewrite (slots_struct_render_int _ _ _ _ Es). reflexivity.
 Qed.
 
 Lemma evo_command_struct_text kind n_rows n_cols a m text :
   evo_command kind n_rows n_cols a m = Ok text ->
-  exists c, evo_command_struct kind n_rows n_cols a m = Ok c /\ text = render_cmd c.
+  exists c, evo_command_struct kind n_rows n_cols a m = Ok c /\ text = cmd_text (c_volume a) c.
 Proof.
   rewrite evo_command_render. destruct (evo_command_struct kind n_rows n_cols a m) as [c|e]; [|discriminate].
   intro H. injection H as <-. exists c. split; reflexivity.
@@ -464,7 +542,7 @@ Lemma evo_command_ok_iff kind n_rows n_cols a m text :
   evo_command kind n_rows n_cols a m = Ok text <->
   exists grid site qs lc bs sl sel,
     accepted n_rows n_cols a m grid site qs lc bs sl sel /\
-    text = render_cmd (the_cmd kind n_rows n_cols a grid site lc bs sl sel).
+    text = cmd_text (c_volume a) (the_cmd kind n_rows n_cols a grid site lc bs sl sel).
 Proof.
   rewrite evo_command_render. split.
   - destruct (evo_command_struct kind n_rows n_cols a m) as [c|e] eqn:E; [|discriminate].
@@ -493,9 +571,10 @@ Qed.
 Lemma cmd_vols_err v m n e : cmd_vols v m n = Err e ->
   e = EReject \/
   (e = EInvalidOp /\ exists q, (0 <= q)%Q /\ (m < q)%Q /\
-     (v = CVScalar (PV (XQ q)) \/ exists l, v = CVList l /\ In (PV (XQ q)) l)).
+     (v = CVScalar (PV (XQ q)) \/ (exists l, v = CVList l /\ In (PV (XQ q)) l) \/
+      (exists l z, v = CVIntList l /\ In z l /\ q = inject_Z z))).
 Proof.
-  unfold cmd_vols. destruct v as [x|l|].
+  unfold cmd_vols. destruct v as [x|l|l|].
   - destruct (check_volume x (Some m)) as [q|e0] eqn:E; [discriminate|]. intro H. injection H as <-.
     apply check_volume_err in E. destruct E as [[-> _]|[-> (q & -> & H0 & Hm)]]; [left; reflexivity|].
     right. split; [reflexivity|]. exists q. repeat split; try assumption. left. reflexivity.
@@ -504,8 +583,17 @@ Proof.
     + intro H. injection H as <-. apply check_volumes_err in E.
       destruct E as (pre & x & post & -> & Hx & _). apply check_volume_err in Hx.
       destruct Hx as [[-> _]|[-> (q & -> & H0 & Hm)]]; [left; reflexivity|].
-      right. split; [reflexivity|]. exists q. repeat split; try assumption. right.
+      right. split; [reflexivity|]. exists q. repeat split; try assumption. right. left.
       eexists. split; [reflexivity|]. apply in_or_app. right. left. reflexivity.
+  - destruct (check_volumes (int_pvols l) m) as [qs|e0] eqn:E.
+    + destruct (length qs =? n)%nat; [discriminate|]. intro H. injection H as <-. left. reflexivity.
+    + intro H. injection H as <-. apply check_volumes_err in E.
+      destruct E as (pre & x & post & Hl & Hx & _). apply check_volume_err in Hx.
+      destruct Hx as [[-> _]|[-> (q & -> & H0 & Hm)]]; [left; reflexivity|].
+      right. split; [reflexivity|]. exists q. repeat split; try assumption. right. right.
+      assert (Hin : In (PV (XQ q)) (int_pvols l)) by (rewrite Hl; apply in_or_app; right; left; reflexivity).
+      apply int_pvols_In_inv in Hin. destruct Hin as [z [Hz Hq]]. injection Hq as ->.
+      exists l, z. split; [reflexivity|]. split; [exact Hz|reflexivity].
   - intro H. injection H as <-. left. reflexivity.
 Qed.
 
@@ -537,7 +625,8 @@ Lemma evo_command_errors kind n_rows n_cols a m e :
   evo_command kind n_rows n_cols a m = Err e ->
   e = EReject \/
   (e = EInvalidOp /\ exists q, (0 <= q)%Q /\ (m < q)%Q /\
-     (c_volume a = CVScalar (PV (XQ q)) \/ exists l, c_volume a = CVList l /\ In (PV (XQ q)) l)).
+     (c_volume a = CVScalar (PV (XQ q)) \/ (exists l, c_volume a = CVList l /\ In (PV (XQ q)) l) \/
+      (exists l z, c_volume a = CVIntList l /\ In z l /\ q = inject_Z z))).
 Proof.
   rewrite evo_command_render.
   destruct (evo_command_struct kind n_rows n_cols a m) as [c|e0] eqn:E; [discriminate|].
@@ -990,10 +1079,13 @@ Qed.
 
 Lemma cmd_vols_length v m n qs : cmd_vols v m n = Ok qs -> length qs = n.
 Proof.
-  unfold cmd_vols. destruct v as [x|l|]; [| |discriminate].
+  unfold cmd_vols. destruct v as [x|l|l|]; [| | |discriminate].
   - destruct (check_volume x (Some m)) as [q|e]; [|discriminate]. intro H. injection H as <-.
     apply repeat_length.
   - destruct (check_volumes l m) as [qs'|e]; [|discriminate].
+    destruct (length qs' =? n)%nat eqn:E; [|discriminate]. intro H. injection H as <-.
+    apply Nat.eqb_eq. exact E.
+  - destruct (check_volumes (int_pvols l) m) as [qs'|e]; [|discriminate].
     destruct (length qs' =? n)%nat eqn:E; [|discriminate]. intro H. injection H as <-.
     apply Nat.eqb_eq. exact E.
 Qed.
@@ -1197,7 +1289,7 @@ Lemma cmd_vols_track a m qs :
   cmd_vols (c_volume a) m (length (flattenF (c_wells a))) = Ok qs -> track_vols a = map XQ qs.
 Proof.
   unfold track_vols, wells_vols, cmd_vols. cbv zeta. cbn [snd].
-  destruct (c_volume a) as [x|l|]; [| |discriminate].
+  destruct (c_volume a) as [x|l|l|]; [| | |discriminate].
   - destruct (check_volume x (Some m)) as [q|e] eqn:E; [|discriminate]. intro H. injection H as <-.
     destruct (check_volume_ok _ _ _ E) as [-> _]. cbn [evo_vols flattenF broadcast].
     rewrite map_repeat. reflexivity.
@@ -1205,6 +1297,11 @@ Proof.
     destruct (length qs' =? length (flattenF (c_wells a)))%nat eqn:El; [|discriminate].
     intro H. injection H as <-. apply Nat.eqb_eq in El.
     destruct (check_volumes_ok _ _ _ E) as [-> _]. cbn [evo_vols flattenF]. rewrite map_map.
+    cbn beta iota. apply broadcast_map_XQ. exact El.
+  - destruct (check_volumes (int_pvols l) m) as [qs'|e] eqn:E; [|discriminate].
+    destruct (length qs' =? length (flattenF (c_wells a)))%nat eqn:El; [|discriminate].
+    intro H. injection H as <-. apply Nat.eqb_eq in El.
+    destruct (check_volumes_ok _ _ _ E) as [Hq _]. cbn [evo_vols flattenF]. rewrite Hq, map_map.
     cbn beta iota. apply broadcast_map_XQ. exact El.
 Qed.
 
@@ -1586,7 +1683,7 @@ Lemma evo_command_agree kind n_rows n_cols a m text :
   n_rows <= 26 -> n_cols < 256 ->
   evo_command kind n_rows n_cols a m = Ok text ->
   exists c qs rcs,
-    evo_command_struct kind n_rows n_cols a m = Ok c /\ text = render_cmd c /\
+    evo_command_struct kind n_rows n_cols a m = Ok c /\ text = cmd_text (c_volume a) c /\
     map (make_well_index n_rows n_cols) (flattenF (c_wells a)) = map Some rcs /\
     length qs = length rcs /\
     track_vols a = map XQ qs /\
@@ -1624,7 +1721,7 @@ Lemma evo_command_ledger_bridge kind L a m text :
   g_cols (lw_geom L) < 256 ->
   evo_command kind (n_row_ids (lw_geom L)) (g_cols (lw_geom L)) a m = Ok text ->
   exists c qs rcs,
-    text = render_cmd c /\
+    text = cmd_text (c_volume a) c /\
     decode_effect (n_row_ids (lw_geom L)) (g_cols (lw_geom L)) c = Some (effect_of rcs qs) /\
     length qs = length rcs /\
     events_of L (zip (track_wells a) (track_vols a)) = Some (zip (map (real_index (lw_geom L)) rcs) qs).
@@ -1646,7 +1743,7 @@ Lemma evo_aspirate_ledger s k a label s' L :
   g_cols (lw_geom L) < 256 ->
   exists L' w text c rcs qs,
     nth_error (st_lw s') k = Some L' /\ st_wl s' = emit w [RCmd text] /\
-    text = render_cmd c /\
+    text = cmd_text (c_volume a) c /\
     decode_effect (n_row_ids (lw_geom L)) (g_cols (lw_geom L)) c = Some (effect_of rcs qs) /\
     length qs = length rcs /\
     length (lw_vols L') = length (lw_vols L) /\
@@ -1658,7 +1755,7 @@ Proof.
   destruct (evo_command_ledger_bridge _ L a _ text HC EV) as (c & qs & rcs & -> & Hd & Hl & Hev).
   destruct (remove_ledger _ _ _ _ _ ER HS) as (evs & Hevs & Hlen & HJ).
   rewrite track_pairs, Hev in Hevs. injection Hevs as <-.
-  exists L', w, (render_cmd c), c, rcs, qs.
+  exists L', w, (cmd_text (c_volume a) c), c, rcs, qs.
   split; [rewrite Elw; exact (nth_error_upd_same _ _ _ _ HL)|].
   split; [exact Ewl|]. split; [reflexivity|]. split; [exact Hd|]. split; [exact Hl|].
   split; [exact Hlen|exact HJ].
@@ -1669,7 +1766,7 @@ Lemma evo_dispense_ledger s k a label comps s' L :
   g_cols (lw_geom L) < 256 ->
   exists L' w text c rcs qs,
     nth_error (st_lw s') k = Some L' /\ st_wl s' = emit w [RCmd text] /\
-    text = render_cmd c /\
+    text = cmd_text (c_volume a) c /\
     decode_effect (n_row_ids (lw_geom L)) (g_cols (lw_geom L)) c = Some (effect_of rcs qs) /\
     length qs = length rcs /\
     length (lw_vols L') = length (lw_vols L) /\
@@ -1681,7 +1778,7 @@ Proof.
   destruct (evo_command_ledger_bridge _ L a _ text HC EV) as (c & qs & rcs & -> & Hd & Hl & Hev).
   destruct (add_ledger _ _ _ _ _ _ ER HS) as (evs & Hevs & Hlen & HJ).
   rewrite track_pairs, Hev in Hevs. injection Hevs as <-.
-  exists L', w, (render_cmd c), c, rcs, qs.
+  exists L', w, (cmd_text (c_volume a) c), c, rcs, qs.
   split; [rewrite Elw; exact (nth_error_upd_same _ _ _ _ HL)|].
   split; [exact Ewl|]. split; [reflexivity|]. split; [exact Hd|]. split; [exact Hl|].
   split; [exact Hlen|exact HJ].
@@ -1748,6 +1845,10 @@ Lemma reject_volumes kind R C a m :
   (forall l x, c_volume a = CVList l -> In x l -> bad_volume x -> exists e, r = Err e) /\
   (forall l q, c_volume a = CVList l -> In (PV (XQ q)) l -> (m < q)%Q -> exists e, r = Err e) /\
   (forall l, c_volume a = CVList l -> length l <> length wells -> exists e, r = Err e) /\
+  (* one Python int per well *)
+  (forall l z, c_volume a = CVIntList l -> In z l -> (z < 0)%Z -> exists e, r = Err e) /\
+  (forall l z, c_volume a = CVIntList l -> In z l -> (m < inject_Z z)%Q -> exists e, r = Err e) /\
+  (forall l, c_volume a = CVIntList l -> length l <> length wells -> exists e, r = Err e) /\
   (c_volume a = CVOther -> exists e, r = Err e) /\
   (* the error is the volume's own error when wells, tips order, grid and site are fine *)
   (forall e g s, length wells = length (c_tips a) -> strictly_ascending_str wells = true ->
@@ -1767,6 +1868,16 @@ Proof.
     destruct (check_volume_ok _ _ _ E) as (Hq & _ & _ & Hle). injection Hq as <-.
     exfalso. exact (Qlt_not_le _ _ Hm Hle).
   - intros l Hv Hl. apply reject_volume_any. rewrite Hv. apply cmd_vols_list_length. exact Hl.
+  - intros l z Hv Hin Hz. apply reject_volume_any. rewrite Hv, cmd_vols_int.
+    apply (cmd_vols_list_bad _ m _ _ (int_pvols_In z l Hin)). exists EReject. apply check_volume_bad.
+    do 4 right. exists (inject_Z z). split; [reflexivity|]. unfold Qlt, inject_Z. cbn [Qnum Qden]. lia.
+  - intros l z Hv Hin Hm. apply reject_volume_any. rewrite Hv, cmd_vols_int.
+    apply (cmd_vols_list_bad _ m _ _ (int_pvols_In z l Hin)).
+    destruct (check_volume (PV (XQ (inject_Z z))) (Some m)) as [q'|e] eqn:E; [|exists e; reflexivity].
+    destruct (check_volume_ok _ _ _ E) as (Hq & _ & _ & Hle). injection Hq as <-.
+    exfalso. exact (Qlt_not_le _ _ Hm Hle).
+  - intros l Hv Hl. apply reject_volume_any. rewrite Hv, cmd_vols_int. apply cmd_vols_list_length.
+    unfold int_pvols. rewrite map_length. exact Hl.
   - intros Hv. apply reject_volume_any. rewrite Hv. exists EReject. reflexivity.
   - intros e g s. apply reject_volume_exact.
 Qed.
@@ -1814,7 +1925,7 @@ Qed.
 Lemma fields_statement kind R C a m text :
   evo_command kind R C a m = Ok text ->
   exists c bs,
-    evo_command_struct kind R C a m = Ok c /\ text = render_cmd c /\
+    evo_command_struct kind R C a m = Ok c /\ text = cmd_text (c_volume a) c /\
     elems_bits (c_tips a) = Some bs /\ asc_nat bs = true /\
     cm_kind c = kind /\
     c_liquid_class a = PStr (cm_lc c) /\
@@ -1907,5 +2018,6 @@ Lemma errors_statement kind R C a m e :
   evo_command kind R C a m = Err e ->
   e = EReject \/
   (e = EInvalidOp /\ exists q, (0 <= q)%Q /\ (m < q)%Q /\
-     (c_volume a = CVScalar (PV (XQ q)) \/ exists l, c_volume a = CVList l /\ In (PV (XQ q)) l)).
+     (c_volume a = CVScalar (PV (XQ q)) \/ (exists l, c_volume a = CVList l /\ In (PV (XQ q)) l) \/
+      (exists l z, c_volume a = CVIntList l /\ In z l /\ q = inject_Z z))).
 Proof. exact (evo_command_errors kind R C a m e). Qed.
